@@ -210,17 +210,20 @@ register('rc_glue', [
     H('rc_read_u64_into_2', 'C01 C08 C09', note='le::read_u64_into, 2 words (T5)'),
     H('rc_read_u64_into_4', 'C01 C03 C08 C09', note='le::read_u64_into, 4 words (T5)'),
     H('rc_read_u64_into_8', 'C01 C08 C09', note='le::read_u64_into, 8 words (T5)'),
-    H('rc_from_rng_default_8', 'C08 C09', note='SeedableRng::from_rng default: one fill_bytes of the seed length, then from_seed (T5)'),
-    H('rc_from_rng_default_16', 'C08 C09'),
-    H('rc_from_rng_default_32', 'C08 C09'),
-    H('rc_from_rng_default_64', 'C08 C09', note='… with Seed512 (Default, AsMut)'),
+    H('rc_from_rng_default_8', 'C09', note='SeedableRng::from_rng default: one fill_bytes of the seed length, then from_seed (T5)'),
+    H('rc_from_rng_default_16', 'C09'),
+    H('rc_from_rng_default_32', 'C09'),
+    H('rc_from_rng_default_64', 'C09', note='… with Seed512 (Default, AsMut)'),
     H('rc_try_from_rng_default_8', 'C09', note='try_from_rng default: same generator on success, the source error and no generator on failure'),
     H('rc_try_from_rng_default_16', 'C09'),
     H('rc_try_from_rng_default_32', 'C09'),
     H('rc_try_from_rng_default_64', 'C09'),
-] + [H('rc_%sfrom_rng_%s' % (t, n), 'C08 C09' if not t else 'C09', note='%s::%sfrom_rng: the rand_core default applies (one fill_bytes of the seed length, then from_seed)' % (n, t))
+] + [H('rc_%sfrom_rng_%s' % (t, n), 'C09', note='%s::%sfrom_rng: the rand_core default applies (one fill_bytes of the seed length, then from_seed)' % (n, t))
      for n in ('splitmix64', 'xoroshiro64starstar', 'xoroshiro128plusplus', 'xoroshiro128starstar', 'xoshiro128plus', 'xoshiro128plusplus', 'xoshiro128starstar',
-               'xoshiro256plus', 'xoshiro256starstar', 'xoshiro512plusplus', 'xoshiro512starstar') for t in ('', 'try_')])
+               'xoshiro256plus', 'xoshiro256starstar', 'xoshiro512plusplus', 'xoshiro512starstar') for t in ('', 'try_')]
+  + [H('rc_zero_%sfrom_rng_%s' % (t, n), 'C08', note='%s::%sfrom_rng on a source that serves bytes and words from one LE stream: an all-zero block gives seed_from_u64(0), every other block is used verbatim (never the zero state)' % (n, t))
+     for n in ('xoroshiro64star', 'xoroshiro64starstar', 'xoroshiro128plus', 'xoroshiro128plusplus', 'xoroshiro128starstar', 'xoshiro128plus', 'xoshiro128plusplus', 'xoshiro128starstar',
+               'xoshiro256plus', 'xoshiro256plusplus', 'xoshiro256starstar', 'xoshiro512plus', 'xoshiro512plusplus', 'xoshiro512starstar') for t in ('', 'try_')])
 register('blockrng', [
     H('blockrng_next_u32', 'C05 C02 C03 C14', note='BlockRng::next_u32: next stream word, refill exactly at the block boundary (any read position, arbitrary block contents)'),
     H('blockrng_next_u64', 'C05 C14', note='BlockRng::next_u64 == (second << 32) | first, incl. the straddling cases'),
